@@ -75,7 +75,13 @@ def cases(tier, seed):
             if j % 3 == 2 and d >= 2:
                 cs.append({'scen': 'ttsvd', 's': dict(base, rmax=[1] + [1 + (k % 2) for k in range(d - 1)] + [1])})
                 cs.append({'scen': 'ttsvd', 's': dict(base, rmax=[1] + [50] * (d - 1) + [1])})
+                cs.append({'scen': 'ttsvd', 's': dict(base, rmax=[1] + [3 - (k % 3) for k in range(d - 1)] + [1])})      # decreasing caps (a smaller cap behind a larger one)
                 cs.append({'scen': 'ttsvd', 's': dict(base, rmax=[1] + [1 + (k % 2) for k in range(d - 1)] + [1], rmax_np=True)})
+    # a smaller cap behind a singleton mode than in front of it (every bond's own cap counts)
+    for shp, rm in [([3, 1, 3], [1, 3, 1, 1]), ([3, 1, 3], [1, 3, 2, 1]), ([3, 1, 1, 3], [1, 3, 3, 1, 1]), ([3, 1, 1, 3], [1, 3, 2, 1, 1]), ([2, 3, 1, 3], [1, 2, 3, 2, 1])]:
+        dg = [[min(i, n - 1) for n in shp] for i in range(3)]
+        cs.append({'scen': 'ttsvd', 's': {'shape': shp, 'pattern': dg, 'rmax': rm}})
+        cs.append({'scen': 'ttsvd', 's': {'shape': shp, 'pattern': dg, 'rmax': rm, 'entry': 'numpy'}})
     # single precision tag, incl. one long mode (dtype-dependent thresholds scale with the unfolding size)
     for shp, pat in [([2, 2], [[0, 0], [1, 1]]), ([3, 3], [[0, 0], [1, 1], [2, 2]]), ([20000, 2], [[0, 0], [7, 1]])] + \
                     ([([3, 20000], [[0, 5], [1, 1], [2, 19999]]), ([20000, 2, 2], [[0, 0, 0], [3, 1, 1]])] if th else []):
